@@ -291,6 +291,46 @@ func (x *Exec) binop(fr *Frame, st *State, op token.Token, a, b Value, T types.T
 	switch {
 	case isInteger(a.T) && (isInteger(b.T) || op == token.SHL || op == token.SHR):
 		return x.intBinop(fr, st, op, a, b, T, pos)
+	case isFloat(a.T) && len(a.L) == 1 && len(b.L) == 1 && a.L[0].S == b.L[0].S:
+		// floating point: every operation is an uninterpreted function of its operands (a sound abstraction of
+		// the IEEE operation: same operands, same result); values are never computed
+		x.c.note("floating point operations are uninterpreted functions of their operands (values not modelled)")
+		w := a.L[0].S
+		var name string
+		switch op {
+		case token.ADD:
+			name = "fp.add"
+		case token.SUB:
+			name = "fp.sub"
+		case token.MUL:
+			name = "fp.mul"
+		case token.QUO:
+			name = "fp.div"
+		case token.LSS:
+			name = "fp.lt"
+		case token.LEQ:
+			name = "fp.le"
+		case token.GTR:
+			x.c.declFun("fp.lt", []Sort{w, w}, SBool)
+			return scalar(T, Apply("fp.lt", SBool, b.L[0], a.L[0]))
+		case token.GEQ:
+			x.c.declFun("fp.le", []Sort{w, w}, SBool)
+			return scalar(T, Apply("fp.le", SBool, b.L[0], a.L[0]))
+		case token.EQL:
+			name = "fp.eq"
+		case token.NEQ:
+			x.c.declFun("fp.eq", []Sort{w, w}, SBool)
+			return scalar(T, Not(Apply("fp.eq", SBool, a.L[0], b.L[0])))
+		}
+		if name == "" {
+			return x.freshValue(st, "fp", T)
+		}
+		if name == "fp.lt" || name == "fp.le" || name == "fp.eq" {
+			x.c.declFun(name, []Sort{w, w}, SBool)
+			return scalar(T, Apply(name, SBool, a.L[0], b.L[0]))
+		}
+		x.c.declFun(name, []Sort{w, w}, w)
+		return scalar(T, x.define(st, "fp", Apply(name, w, a.L[0], b.L[0])))
 	case isFloat(a.T):
 		x.c.note("floating point arithmetic in %s: results unconstrained", shortFuncName(fr.fn))
 		return x.freshValue(st, "fp", T)
@@ -539,6 +579,24 @@ func (x *Exec) convert(fr *Frame, st *State, v Value, T types.Type, pos token.Po
 			r = ZeroExt(t, w)
 		}
 		return scalar(T, r)
+	case isInteger(v.T) && isFloat(T) && len(v.L) == 1:
+		// integer -> float: an uninterpreted function of the (sign- or zero-extended) integer
+		if b, ok := T.Underlying().(*types.Basic); ok && b.Kind() == types.Float64 {
+			t := v.L[0]
+			name := "fp.of_u64"
+			if isSigned(v.T) {
+				name = "fp.of_i64"
+				if t.S.W < 64 {
+					t = SignExt(t, 64)
+				}
+			} else if t.S.W < 64 {
+				t = ZeroExt(t, 64)
+			}
+			x.c.declFun(name, []Sort{SBV(64)}, SBV(64))
+			x.c.note("floating point operations are uninterpreted functions of their operands (values not modelled)")
+			return scalar(T, x.define(st, "fconv", Apply(name, SBV(64), t)))
+		}
+		return x.freshValue(st, "fconv", T)
 	case isInteger(v.T) && isFloat(T), isFloat(v.T) && isInteger(T), isFloat(v.T) && isFloat(T):
 		x.c.note("floating point conversion in %s: result unconstrained", shortFuncName(fr.fn))
 		return x.freshValue(st, "fconv", T)
